@@ -302,3 +302,30 @@ impl<'a, T: Queryable> VfInto<State<'a, T>> for &'a T {
     #[verifier::external_body]
     fn vf_into(self) -> (r: State<'a, T>) { unimplemented!() }
 }
+
+// E10: comparison operators on std types that Verus has no contract for -> named helpers (assumed: std's meaning)
+// `a < b` on &str: lexicographic order of the UTF-8 bytes == order by Unicode scalar value
+#[verifier::external_body]
+pub fn vf_str_lt(a: &str, b: &str) -> (r: bool)
+    ensures r == str_lt(a@, b@),
+{ a < b }
+
+// Rz: X.iter().zip(Y).all(P)   (X, Y: &Vec) — assumed (primitive): P is evaluated on the pairs (X[i], Y[i]), i < min(len)
+pub open spec fn min_len<A, B>(x: Seq<A>, y: Seq<B>) -> int { if x.len() <= y.len() { x.len() as int } else { y.len() as int } }
+#[verifier::external_body]
+pub fn vf_zip_all<'x, A, B, P: Fn((&'x A, &'x B)) -> bool>(x: &'x Vec<A>, y: &'x Vec<B>, p: P) -> (r: bool)
+    requires forall|i: int| 0 <= i < min_len(x@, y@) ==> p.requires(((&#[trigger] x@[i], &y@[i]),)),
+    ensures r ==> forall|i: int| 0 <= i < min_len(x@, y@) ==> p.ensures(((&#[trigger] x@[i], &y@[i]),), true),
+            !r ==> exists|i: int| 0 <= i < min_len(x@, y@) && p.ensures(((&#[trigger] x@[i], &y@[i]),), false),
+{ x.iter().zip(y).all(p) }
+// `a == b` on two values of the data type that are neither numbers nor containers: T's PartialEq (abstract)
+#[verifier::external_body]
+pub fn vf_scalar_eq<T: Queryable>(a: &T, b: &T) -> (r: bool)
+    ensures r == scalar_eq(*a, *b),
+{ unimplemented!() }
+
+// `lhs == rhs` on two Vec<Pointer> (derived PartialEq; only reached for non-singular operands, which the
+// contract of `eq` excludes): opaque
+#[verifier::external_body]
+pub fn vf_ptr_vecs_eq<'a, T: Queryable>(a: &Vec<Pointer<'a, T>>, b: &Vec<Pointer<'a, T>>) -> (r: bool)
+{ unimplemented!() }
